@@ -1,0 +1,81 @@
+// Verification hooks. This module is only compiled when the `verif` feature is enabled, which is
+// never the case for normal builds. It contains thread-local event counters that are bumped from a
+// few instrumentation points in the other modules and read by an external monitoring harness.
+#![allow(dead_code)]
+
+use std::cell::Cell;
+
+thread_local! {
+    // Number of times `open` replaced an unresolved unifier with a fresh one.
+    static OPEN_UNRESOLVED: Cell<u64> = const { Cell::new(0) };
+
+    // Number of times `signed_shift` left an unresolved unifier untouched because its shift was
+    // below the cutoff.
+    static SHIFT_UNRESOLVED_BELOW_CUTOFF: Cell<u64> = const { Cell::new(0) };
+
+    // Number of times `signed_shift` refused to lower an unresolved unifier.
+    static SHIFT_UNRESOLVED_REFUSED: Cell<u64> = const { Cell::new(0) };
+
+    // Number of parsing function invocations (cache hits and misses).
+    static PARSE_CALLS: Cell<u64> = const { Cell::new(0) };
+
+    // If nonzero, parsing panics once `PARSE_CALLS` exceeds this cap.
+    static PARSE_CALLS_CAP: Cell<u64> = const { Cell::new(0) };
+}
+
+// A snapshot of all the counters.
+#[derive(Clone, Copy, Debug, Default, Eq, PartialEq)]
+pub struct Counters {
+    pub open_unresolved: u64,
+    pub shift_unresolved_below_cutoff: u64,
+    pub shift_unresolved_refused: u64,
+    pub parse_calls: u64,
+}
+
+pub fn open_unresolved() {
+    OPEN_UNRESOLVED.with(|counter| counter.set(counter.get() + 1));
+}
+
+pub fn shift_unresolved_below_cutoff() {
+    SHIFT_UNRESOLVED_BELOW_CUTOFF.with(|counter| counter.set(counter.get() + 1));
+}
+
+pub fn shift_unresolved_refused() {
+    SHIFT_UNRESOLVED_REFUSED.with(|counter| counter.set(counter.get() + 1));
+}
+
+pub fn parse_call() {
+    let calls = PARSE_CALLS.with(|counter| {
+        counter.set(counter.get() + 1);
+        counter.get()
+    });
+
+    let cap = PARSE_CALLS_CAP.with(Cell::get);
+    assert!(
+        cap == 0 || calls <= cap,
+        "verif: parse call cap of {cap} exceeded",
+    );
+}
+
+// Read all the counters.
+pub fn snapshot() -> Counters {
+    Counters {
+        open_unresolved: OPEN_UNRESOLVED.with(Cell::get),
+        shift_unresolved_below_cutoff: SHIFT_UNRESOLVED_BELOW_CUTOFF.with(Cell::get),
+        shift_unresolved_refused: SHIFT_UNRESOLVED_REFUSED.with(Cell::get),
+        parse_calls: PARSE_CALLS.with(Cell::get),
+    }
+}
+
+// Reset all the counters to zero.
+pub fn reset() {
+    OPEN_UNRESOLVED.with(|counter| counter.set(0));
+    SHIFT_UNRESOLVED_BELOW_CUTOFF.with(|counter| counter.set(0));
+    SHIFT_UNRESOLVED_REFUSED.with(|counter| counter.set(0));
+    PARSE_CALLS.with(|counter| counter.set(0));
+}
+
+// Set the cap on parsing function invocations (0 disables the cap).
+pub fn set_parse_calls_cap(cap: u64) {
+    PARSE_CALLS_CAP.with(|counter| counter.set(cap));
+}
